@@ -213,6 +213,57 @@ func tree(r *rand.Rand, dir string) (root string, files []string) {
 	return root, files
 }
 
+// depsGraph writes two modules: example.com/app (the scan target) and dep.example/lib (reached
+// through a replace directive). lib holds three import chains of 70 packages each
+// (x00 -> x01 -> ... -> x69 -> xhub -> xleaf0, xleaf1) and, for each chain, a side entrance
+// sx that imports one package in the middle of the chain (the 64th, 65th and 66th); app
+// imports the head of every chain and every side entrance. The set of dependencies a
+// transitive scan covers is the reachability closure, whatever path the walk takes first.
+func depsGraph(dir string) (appDir string) {
+	lib := filepath.Join(dir, "depsgraph", "lib")
+	appDir = filepath.Join(dir, "depsgraph", "app")
+	w := func(p, src string) {
+		os.MkdirAll(filepath.Dir(p), 0o755)
+		os.WriteFile(p, []byte(src), 0o644)
+	}
+	w(filepath.Join(lib, "go.mod"), "module dep.example/lib\n\ngo 1.24\n")
+	pkg := func(name string, imports []string, body string) {
+		var b strings.Builder
+		fmt.Fprintf(&b, "package %s\n\n", name)
+		for _, im := range imports {
+			fmt.Fprintf(&b, "import \"dep.example/lib/%s\"\n", im)
+		}
+		fmt.Fprintf(&b, "\nfunc F(n int) int {\n\ts := %s\n\tfor i := 0; i < n; i++ {\n\t\ts += i\n\t}\n\treturn s\n}\n", body)
+		w(filepath.Join(lib, name, name+".go"), b.String())
+	}
+	var appImports, appCalls []string
+	for ci, x := range []string{"ka", "kb", "kc"} {
+		for i := 0; i < 70; i++ {
+			next := fmt.Sprintf("%s%02d", x, i+1)
+			if i == 69 {
+				next = x + "hub"
+			}
+			pkg(fmt.Sprintf("%s%02d", x, i), []string{next}, next+".F(n)")
+		}
+		pkg(x+"hub", []string{x + "leaf0", x + "leaf1"}, x+"leaf0.F(n) + "+x+"leaf1.F(n)")
+		pkg(x+"leaf0", nil, "1")
+		pkg(x+"leaf1", nil, "2")
+		mid := fmt.Sprintf("%s%02d", x, 63+ci)
+		pkg("s"+x, []string{mid}, mid+".F(n) + 1")
+		appImports = append(appImports, x+"00", "s"+x)
+		appCalls = append(appCalls, x+"00.F(3)", "s"+x+".F(2)")
+	}
+	w(filepath.Join(appDir, "go.mod"), "module example.com/app\n\ngo 1.24\n\nrequire dep.example/lib v0.0.0\n\nreplace dep.example/lib => ../lib\n")
+	var m strings.Builder
+	m.WriteString("package main\n\nimport (\n")
+	for _, im := range appImports {
+		fmt.Fprintf(&m, "\t\"dep.example/lib/%s\"\n", im)
+	}
+	fmt.Fprintf(&m, ")\n\nfunc main() {\n\tprintln(%s)\n}\n", strings.Join(appCalls, " + "))
+	w(filepath.Join(appDir, "main.go"), m.String())
+	return appDir
+}
+
 func copyDB(dir, name string) string {
 	dst := filepath.Join(dir, name)
 	exec.Command("cp", "-r", filepath.Join(dir, "sigs.db"), dst).Run()
@@ -314,6 +365,9 @@ func main() {
 		input{name: "scan/tree-json", args: []string{"scan", "--no-sandbox", "--threshold", "0.6", "--db", filepath.Join(dir, "sigs.json"), root}, dir: root, tied: true},
 		input{name: "scan/tree-exact", args: []string{"scan", "--no-sandbox", "--exact", "--db", copyDB(dir, "sigs-exact.db"), root}, dir: root, tied: true},
 	)
+	if app := depsGraph(dir); app != "" {
+		inputs = append(inputs, input{name: "scan/deps-transitive-long-chain", args: []string{"scan", "--no-sandbox", "--deps", "--deps-depth", "transitive", "--db", filepath.Join(dir, "sigs.json"), app}, dir: app, tied: true})
+	}
 	R := evid.Pick(3, 20)
 	gmps := []int{1, 2, 16}
 	masks := []string{"", "<one cpu>", "<four cpus>"}
